@@ -352,6 +352,35 @@ def p8_build(size, perm):
     return files
 
 
+def p9_build(size, perm):
+    """host documents that embed SEVERAL injected languages (html with <style> and <script>, in both
+    orders, and with two regions of one language): the injected documents of one file come out of
+    a map; which of them are scanned, and what is reported for them, must not depend on its order.
+    Rule file names permuted."""
+    (pfile,) = perm
+    rules = [
+        {"id": "p9-js", "language": "javascript", "severity": "warning", "rule": {"pattern": "foo($A)"}, "message": "js $A", "fix": "bar($A)"},
+        {"id": "p9-css", "language": "css", "severity": "error", "rule": {"kind": "plain_value", "regex": "^red$"}, "message": "css value", "fix": "blue"},
+        {"id": "p9-html", "language": "html", "severity": "hint", "rule": {"kind": "tag_name", "regex": "^p$"}, "message": "html tag"},
+    ]
+    names = ["a.yml", "m.yml", "z.yml"]
+    files = {"sgconfig.yml": json.dumps({"ruleDirs": ["rules"]})}
+    named = {}
+    for r, i in zip(rules, pfile):
+        named["rules/" + names[i]] = json.dumps(r) + "\n"
+    for k in sorted(named):
+        files[k] = named[k]
+    style, script = "<style>\na { color: red }\n</style>\n", "<script>\nfoo(1)\n</script>\n"
+    files["src/a.html"] = "<p>t</p>\n" + style + script
+    files["src/b.html"] = script + "<p>t</p>\n" + style
+    files["src/c.html"] = style + script + style + script
+    files["src/d.html"] = script
+    files["src/e.html"] = style
+    files["src/f.css"] = "b { color: red }\n"
+    files["src/g.js"] = "foo(2)\n"
+    return files
+
+
 def p4d_build(size, perm):
     (pc,) = perm
     # $F (the callee) and $CALL (the call) START AT THE SAME BYTE; their constraints depend on each
@@ -394,6 +423,8 @@ def projects():
                 lambda s: [("rule file names", 3), ("util file names", s)], p6_build, tests=True, fixes=True),
         Project("P8", "rule files of several languages: file names and documents of a multi-document file permuted",
                 lambda s: [("rule file names", 3), ("documents of one rule file", 3)], p8_build, tests=False, fixes=True),
+        Project("P9", "html files embedding several injected languages (css + js rules, rule file names permuted)",
+                lambda s: [("rule file names", 3)], p9_build, tests=False, fixes=True),
         Project("P7a", "languageGlobs with 3 disjoint entries",
                 lambda s: [("languageGlobs keys", 3)], p7a_build, tests=False, fixes=True),
         Project("P7b", "languageGlobs where one file is claimed by two entries (judged per text order)",
@@ -403,8 +434,8 @@ def projects():
 
 # size parameter of every project per tier (number of keys of the permuted map)
 SIZES = {
-    "quick":    {"P1": 3, "P2": 3, "P3": 3, "P4a": 3, "P4b": 2, "P4c": 2, "P4d": 2, "P8": 3, "P5": 2, "P6": 2, "P7a": 3, "P7b": 2},
-    "thorough": {"P1": 4, "P2": 4, "P3": 4, "P4a": 3, "P4b": 2, "P4c": 2, "P4d": 2, "P8": 3, "P5": 3, "P6": 3, "P7a": 3, "P7b": 2},
+    "quick":    {"P1": 3, "P2": 3, "P3": 3, "P4a": 3, "P4b": 2, "P4c": 2, "P4d": 2, "P8": 3, "P9": 3, "P5": 2, "P6": 2, "P7a": 3, "P7b": 2},
+    "thorough": {"P1": 4, "P2": 4, "P3": 4, "P4a": 3, "P4b": 2, "P4c": 2, "P4d": 2, "P8": 3, "P9": 3, "P5": 3, "P6": 3, "P7a": 3, "P7b": 2},
 }
 SEEDS = {"quick": 8, "thorough": 48}      # seeds 0..S inclusive
 REPS = 2
